@@ -256,7 +256,7 @@ class Tensor:
                     raise EngineLimit("slice %r" % (k,))
             elif isinstance(k, Tensor):
                 pos = list(range(len(out_shape), len(out_shape) + k.ndim))
-                plan.append(("gather", k, pos))
+                plan.append(("gather", k, pos, d))
                 out_shape.extend(k.shape)
             else:
                 t = _lift(k)
@@ -276,7 +276,11 @@ class Tensor:
                 elif p[0] == "rev":
                     s.append(_dterm(p[2]) - 1 - idx[p[1]])
                 else:
-                    s.append(p[1].fn(tuple(idx[j] for j in p[2])))
+                    # JAX gather semantics: an index past the end is CLAMPED to the last element (x[idx] never reads
+                    # outside x); negative indices are not modelled beyond NumPy's wrap-around being absent here
+                    gi = p[1].fn(tuple(idx[j] for j in p[2]))
+                    nn = _dterm(p[3])
+                    s.append(z3.If(gi >= nn, nn - 1, gi))
             return src_fn(tuple(s))
 
         if not out_shape:
